@@ -82,7 +82,7 @@ impl Scenario {
                                         p.bufreader_cap,
                                         match &p.fault {
                                             crate::simreader::Fault::None => "none".to_string(),
-                                            crate::simreader::Fault::Io { at, kind } => format!("io:{kind}@{at}"),
+                                            crate::simreader::Fault::Io { at, kind } => format!("io{}:{kind}@{at}", if p.io_once { "-once" } else { "" }),
                                             crate::simreader::Fault::Truncate { at } => format!("eof@{at}"),
                                         }
                                     )
